@@ -43,6 +43,14 @@ BAD_UTF8 = ['ff', 'fe', 'c3', 'e282', 'c080', 'eda080', 'f4908080', 'f8888080', 
 BAD_UTF16 = ['lonehigh', 'lonelow', 'odd', 'high-eof']
 
 
+def canaries():
+    return {'K1-eager-block-validation': {
+        'api': 'scan', 'backend': 'py', 'label': 'canary', 'mode': 'defect', 'text': 'a: b: c\n',
+        'defect': {'at': 8, 'kind': 'nonprintable', 'char': '\x01'},
+        'deliveries': [{'form': 'text', 'via': 'memory'},
+                       {'block': 1, 'form': 'text', 'lazy': True, 'sizes': [], 'then': 1, 'via': 'sim'}]}}
+
+
 def plan(tier):
     if tier == 'quick':
         return {'runs': 16000, 'wall': 240, 'batch': 8, 'shrink_s': 45, 'selfcheck': 8}
